@@ -187,8 +187,13 @@ pub struct DriveCfg {
 /// Run cases 0..total in child segments; merge child reports into `rep`; return the culprits
 /// (cases whose child died or hung), each re-run alone twice with a tripled idle budget.
 pub fn drive(ctx: &Ctx, engine: &str, total: u64, cfg: &DriveCfg, rep: &mut Report) -> Vec<Culprit> {
+    drive_from(ctx, engine, 0, total, cfg, rep)
+}
+
+/// Same over the index range lo..total.
+pub fn drive_from(ctx: &Ctx, engine: &str, lo: u64, total: u64, cfg: &DriveCfg, rep: &mut Report) -> Vec<Culprit> {
     let mut culprits = vec![];
-    let mut next = 0u64;
+    let mut next = lo;
     while next < total {
         let seg_end = (next + cfg.segment).min(total);
         let mut cur = next;
